@@ -289,7 +289,7 @@ pub fn run(args: &Args) {
 	let mut next: u64 = 0;
 
 	// ---------------- Part A: container readers and converter wrappers
-	let n_a = args.n(10, 35);
+	let n_a = args.n(11, 36);
 	for wi in 0..n_a {
 		let dense = wi == 0;
 		// world 1: "ocean" – every tile of levels 0..3 present, all byte-identical (< 1000 bytes)
@@ -298,15 +298,33 @@ pub fn run(args: &Args) {
 		// sub-boxes that skip tiles make gaps > 32 KiB between consecutive requested tiles → chunk splits.
 		// thorough, world 6: 70 tiles of 1 MiB in one block (> 64 MiB → split by size)
 		let big = wi == 2;
-		let huge = args.thorough() && wi == 10;
+		let huge = args.thorough() && wi == 11;
+		// world 10: a tall and a wide sparse strip at zoom 10 with tiles 0 / 255 / 256 / 257 / 511 / 512 rows (columns) apart,
+		// also aligned to multiples of 256 in TMS (flipped) numbering; boxes 255 / 256 / 257 / 513 / 600 high (wide) that end
+		// 256k-1, 256k, 256k+1 rows below a tile: band / block / page boundaries of every reader's stream path
+		let tall = wi == 10;
 		// world 6: empty (0 bytes) payloads, stored uncompressed (PNG so that mbtiles takes part); world 7: fault injection
 		let empties = wi == 6;
-		let faulty = wi == 7 || (wi > 10 && wi % 4 == 1);
+		let faulty = wi == 7 || (wi > 11 && wi % 4 == 1);
 		// world 8: 2x2 clusters whose skipped tile is exactly 32767 / 32768 / 32769 bytes (chunk gap threshold),
 		// stored uncompressed; world 9: extreme coordinates (levels 0, 30, 31; x, y in {0, 2^z-1})
 		let gaps = wi == 8;
 		let extreme = wi == 9;
-		let coords: Vec<Key> = if gaps {
+		let coords: Vec<Key> = if tall {
+			let mut v = vec![];
+			let (x0, y0) = (100u32, 130u32);
+			for d in [0u32, 1, 255, 256, 257, 511, 512, 513, 700] {
+				v.push((10u8, x0, y0 + d));
+				v.push((10u8, x0 + d, y0));
+			}
+			// rows whose TMS number (1023 - y) is a multiple of 256, and their neighbours
+			for y in [1023 - 256u32, 1023 - 257, 1023 - 255, 1023 - 512, 1023 - 768] {
+				v.push((10u8, x0 + 1, y));
+			}
+			v.sort();
+			v.dedup();
+			v
+		} else if gaps {
 			let mut v = vec![];
 			for (z, x0, y0) in [(3u8, 1u32, 2u32), (4, 9, 3), (5, 20, 17)] {
 				for (dx, dy) in [(0, 0), (1, 0), (0, 1), (1, 1)] {
@@ -368,9 +386,9 @@ pub fn run(args: &Args) {
 				gen_coords(&mut rng, 90, gaps)
 			}
 		};
-		let (fmt, comp) = if gaps { (1, 0) } else if dense || big { (1, 1) } else if ocean || huge { (1, 0) } else if empties { (2, 0) } else { pick_fmt_comp(&mut rng) };
+		let (fmt, comp) = if tall { (1, 1) } else if gaps { (1, 0) } else if dense || big { (1, 1) } else if ocean || huge { (1, 0) } else if empties { (2, 0) } else { pick_fmt_comp(&mut rng) };
 		// payload identity pattern: see `assign_ids_style`
-		let style = if dense || big || huge || gaps { 0 } else if ocean { 1 } else if empties { 6 } else if wi < 6 { [0, 1, 0, 4, 2, 5][wi] } else { [0, 0, 0, 1, 2, 2, 3, 4, 4, 5, 6][rng.below(11) as usize] };
+		let style = if dense || big || huge || gaps || tall { 0 } else if ocean { 1 } else if empties { 6 } else if wi < 6 { [0, 1, 0, 4, 2, 5][wi] } else { [0, 0, 0, 1, 2, 2, 3, 4, 4, 5, 6][rng.below(11) as usize] };
 		out.count(&format!("A_payload_style_{style}"));
 		let tiles = if gaps {
 			// per cluster: A (0,0), P (1,0) = the skipped tile of exact size, B (0,1), Q (1,1)
@@ -446,6 +464,38 @@ pub fn run(args: &Args) {
 				continue;
 			}
 			let levels = ask_levels(&mut rng, &specs);
+			if tall {
+				let (x0, y0) = (100u32, 130u32);
+				let mut boxes = vec![];
+				let ys: Vec<u32> = tiles.keys().filter(|k| k.1 <= x0 + 1).map(|k| k.2).collect();
+				let xs: Vec<u32> = tiles.keys().filter(|k| k.2 == y0).map(|k| k.1).collect();
+				for (i, t) in ys.iter().enumerate() {
+					for k in [1u32, 2] {
+						for d in [-1i64, 0, 1] {
+							let h = [255u32, 256, 257, 513, 600][(i + k as usize + (d + 1) as usize) % 5];
+							let ymax = (*t as i64 + 256 * k as i64 + d).clamp(0, 1023) as u32;
+							let ymin = ymax.saturating_sub(h - 1);
+							boxes.push(TileBBox::new(10, x0.saturating_sub(1), ymin, x0 + 1, ymax).unwrap());
+						}
+					}
+				}
+				for (i, t) in xs.iter().enumerate() {
+					for k in [1u32, 2] {
+						let w_ = [256u32, 257, 513][(i + k as usize) % 3];
+						let xmax = (*t + 256 * k).min(1023);
+						let xmin = xmax.saturating_sub(w_ - 1);
+						boxes.push(TileBBox::new(10, xmin, y0.saturating_sub(1), xmax, y0 + 1).unwrap());
+					}
+				}
+				boxes.truncate(args.n(48, 120));
+				out.count("A_world_tall_band_boundaries");
+				run_in_world(&rt, &mut out, &mut id, &w, "C02", "S", "L0", &boxes_arg(&boxes));
+				if kind == "versatiles" || kind == "vtx" {
+					reader_line(&rt, &mut out, &mut id, &w, "C02v", "S", &boxes_arg(&boxes));
+				} else if kind == "mbtiles" {
+					reader_line(&rt, &mut out, &mut id, &w, "C02m", "S", &boxes_arg(&boxes));
+				}
+			}
 			if gaps {
 				let mut boxes = vec![];
 				for chunk in coords.chunks(4) {
@@ -525,7 +575,7 @@ pub fn run(args: &Args) {
 				}
 			}
 			// converter wrappers: all four flag pairs
-			for flags in ["00", "10", "01", "11"] {
+			for flags in ["00", "10", "01", "11", "00r", "11r"] {
 				for (z, present) in levels.iter().take(3) {
 					let boxes = gen_boxes(&mut rng, *z, present, 1, args.n(8, 20));
 					run_in_world(&rt, &mut out, &mut id, &w, "C02", "X", flags, &boxes_arg(&boxes));
